@@ -33,6 +33,23 @@ class _Weakable:
             self.me = self
 
 
+class _WeakableFalse(_Weakable):
+    """Alive but falsy through __bool__ (a widget or walker may define its own truth value)."""
+
+    def __bool__(self) -> bool:
+        return False
+
+
+class _WeakableEmpty(_Weakable):
+    """Alive but falsy through __len__ == 0 (an empty list walker / MonitoredList as weak argument)."""
+
+    def __len__(self) -> int:
+        return 0
+
+
+_WEAK_KINDS = (_Weakable, _WeakableFalse, _WeakableEmpty)
+
+
 class _Handler:
     def __init__(self, run: _Run, hid: int) -> None:
         self.run = run
@@ -60,8 +77,12 @@ def _make_classes_once():
     class SenderA(metaclass=signals.MetaSignals):
         signals = ["s1", "s2"]  # noqa: RUF012
 
-        def __init__(self, sid):
+        def __init__(self, sid, length=1):
             self.sid = sid
+            self.length = length
+
+        def __len__(self):  # a sender may be falsy (an empty list walker emits "modified")
+            return self.length
 
     class SenderB(SenderA):
         signals = ["t1"]  # noqa: RUF012
@@ -115,13 +136,21 @@ class _Run:
         self.sender_names = []
         for i in range(cfg["senders"]):
             cls = self.classes[i % 2]
-            self.senders.append(cls(i))
+            falsy = cfg.get("sender_empty", [])
+            self.senders.append(cls(i, 0 if i < len(falsy) and falsy[i] else 1))
             self.sender_names.append(["s1", "s2"] if cls is A else ["t1", "s1", "s2"])
         self.sender_wr = [weakref.ref(s) for s in self.senders]
         self.unreg = U(99)
         self.handlers = [_Handler(self, i) for i in range(cfg["handlers"])]
         self.rets = list(cfg["rets"])
-        self.weaks: list[_Weakable | None] = [_Weakable(i, c) for i, c in enumerate(cfg["weak_cyclic"])]
+        kinds = cfg.get("weak_kind", [])
+        self.weaks: list[_Weakable | None] = [
+            _WEAK_KINDS[kinds[i] if i < len(kinds) else 0](i, c) for i, c in enumerate(cfg["weak_cyclic"])
+        ]
+        if any(kinds[: len(self.weaks)]):
+            res.probe("falsy_weak_argument")
+        if any(cfg.get("sender_empty", [])[: cfg["senders"]]):
+            res.probe("falsy_sender")
         self.weak_wr = [weakref.ref(w) for w in self.weaks]
         self.weak_dead = [False] * len(self.weaks)
         self.weak_dropped = [False] * len(self.weaks)
@@ -511,6 +540,8 @@ class SignalsEngine(Engine):
     }
     required_probes = (
         "weak_died_inside_emit",
+        "falsy_weak_argument",
+        "falsy_sender",
         "disconnect_during_emit",
         "earlier_or_self_disconnect_with_later_present",
         "connect_during_emit",
@@ -529,6 +560,8 @@ class SignalsEngine(Engine):
             "handlers": n_h,
             "rets": [rng.randrange(len(RETS)) if rng.random() < 0.5 else 0 for _ in range(n_h)],
             "weak_cyclic": [rng.random() < 0.5 for _ in range(n_w)],
+            "weak_kind": [rng.choice([0, 0, 0, 1, 2]) for _ in range(n_w)],
+            "sender_empty": [rng.random() < 0.15 for _ in range(n_s)],
         }
         ops = []
         n_ops = rng.randint(1, 25)
